@@ -238,7 +238,8 @@ def coq_eval(scratch, name, text, timeout=1800, mem_gb=12):
     """Compile a generated file against the built development; returns (rc, output, seconds)."""
     p = os.path.join(scratch, name + ".v")
     open(p, "w").write(text)
-    cmd = "ulimit -v %d; exec coqc -R %s %s -w -notation-overridden %s" % (mem_gb * 1024 * 1024, COQ, NS, p)
+    cmd = ("ulimit -s unlimited 2>/dev/null || ulimit -s $(ulimit -H -s) 2>/dev/null; ulimit -v %d; "
+           "exec coqc -R %s %s -w -notation-overridden %s" % (mem_gb * 1024 * 1024, COQ, NS, p))
     return sh(["bash", "-c", cmd], cwd=scratch, timeout=timeout)
 
 
